@@ -43,6 +43,12 @@ class P:
         trunc += rnd.sample(hd, 25 if tier == "quick" else len(hd))
         trunc += [t + x for t in ["cat <<E", "cat <<E <<F\n1\nE", "a | | cat <<E", "cat <<E | |", "if a; then cat <<E"] for x in ["", " ", " | |", "\n", "\nq"]]
         pc = ["p\t%s\t\t%d" % (hx(s), nseeds) for s in PARSE_CORPUS + progs + muts + trunc]
+        # a source that starts failing after a parser-side error: the read error and the syntax error are reported by different goroutines
+        faulty = ["a | | ", "a && | # comment\nx", "cat <<E | |\nbody\nE\n", "a | | $(b c)", "echo `x=1 a | | `", "echo $(x=1 a && | #c\n)", "if a; then ) b c d\n",
+                  "case a in a) ;; esac\n", "a ;; b c\n", "for 1 in a b c; do :; done\n", "{ a; } } more words here\n"] + muts[:25]
+        for src in faulty:
+            for k in sorted(set(range(0, len(src) + 1, max(1, len(src) // 12)))):
+                pc.append("p\t%s\t%d\t%d" % (hx(src), k, nseeds))
         ec = ["e\t%s\t%s\t%d" % (hx(e), ",".join("%s=%s" % (hx(k), hx(v)) for k, v in vs.items()), nseeds) for e, vs in EVAL_CORPUS]
         for _ in range(60 if tier == "quick" else 2000):
             toks = [rnd.choice(["x", "y", "1", "0", "(", ")", "+", "=", "/", "++", "$", "&&", "?", ":", "08", "abc", "-"]) for _ in range(rnd.randint(1, 9))]
